@@ -12,6 +12,8 @@ use std::io::{IoSlice, Read, Write};
 
 struct W { out: Vec<u8>, acc: Vec<usize>, i: usize }
 impl W {
+    /// the write call number `i` fails (token `x` in the accept list, stored as usize::MAX)
+    fn fails_now(&self) -> bool { self.i < self.acc.len() && self.acc[self.i] == usize::MAX }
     fn next(&mut self, offered: usize) -> usize {
         let n = if self.i < self.acc.len() { self.acc[self.i].min(offered).max(if offered > 0 { 1 } else { 0 }) } else { offered };
         self.i += 1;
@@ -20,11 +22,13 @@ impl W {
 }
 impl Write for W {
     fn write(&mut self, buf: &[u8]) -> std::io::Result<usize> {
+        if self.fails_now() { self.i += 1; return Err(std::io::Error::new(std::io::ErrorKind::BrokenPipe, "scripted write failure")); }
         let n = self.next(buf.len());
         self.out.extend_from_slice(&buf[..n]);
         Ok(n)
     }
     fn write_vectored(&mut self, bufs: &[IoSlice<'_>]) -> std::io::Result<usize> {
+        if self.fails_now() { self.i += 1; return Err(std::io::Error::new(std::io::ErrorKind::BrokenPipe, "scripted write failure")); }
         let total: usize = bufs.iter().map(|b| b.len()).sum();
         let mut n = self.next(total);
         let ret = n;
@@ -53,8 +57,16 @@ impl Read for R {
 
 pub fn run(case: &str) -> String {
     crate::util::note_current(case);
+    // `<case> ## <case> ...`: the messages are printed one after the other on ONE thread (what a thread keeps from one message
+    // to the next - also from one whose writer failed - must not show in the next)
+    let parts: Vec<String> = case.split(" ## ").map(|s| s.to_string()).collect();
+    let h = std::thread::spawn(move || { parts.iter().map(|p| run_one(p)).collect::<Vec<_>>().join(" ## ") });
+    h.join().unwrap_or_else(|_| "PANIC".into())
+}
+
+fn run_one(case: &str) -> String {
     let f: Vec<String> = case.split(' ').map(|s| s.to_string()).collect();
-    let h = std::thread::spawn(move || {
+    {
         khttp::verif::set_test_clock(Some(0));
         let code: u16 = f[1].parse().unwrap();
         let reason = String::from_utf8(unhex(&f[2])).unwrap();
@@ -73,7 +85,7 @@ pub fn run(case: &str) -> String {
             }
         }
         let pieces: Vec<Vec<u8>> = if f[5] == "-" { vec![] } else { f[5].split(',').map(unhex).collect() };
-        let acc: Vec<usize> = if f[6] == "-" { vec![] } else { f[6].split(',').map(|x| x.parse().unwrap()).collect() };
+        let acc: Vec<usize> = if f[6] == "-" { vec![] } else { f[6].split(',').map(|x| if x == "x" { usize::MAX } else { x.parse().unwrap() }).collect() };
         let mut w = W { out: Vec::new(), acc, i: 0 };
         let status = Status::owned(code, reason);
         let res = match f[0].as_str() {
@@ -83,9 +95,8 @@ pub fn run(case: &str) -> String {
             _ => HttpPrinter::write_request(&mut w, &Method::Put, "/t", &hs, R { pieces, i: 0, off: 0 }),
         };
         khttp::verif::set_test_clock(None);
-        format!("{} {}", hex(&w.out), if res.is_ok() { "ok" } else { "err" })
-    });
-    h.join().unwrap_or_else(|_| "PANIC".into())
+        format!("{} {}", if w.out.is_empty() { "-".to_string() } else { hex(&w.out) }, if res.is_ok() { "ok" } else { "err" })
+    }
 }
 
 pub fn gen(ctx: &Ctx) {
@@ -164,6 +175,22 @@ pub fn gen(ctx: &Ctx) {
                     fields.join(","), if pieces.is_empty() { "-".to_string() } else { pieces.join(",") }, if acc.is_empty() { "-".to_string() } else { acc.join(",") });
                 let r = run(&case);
                 out.emit(&case, &r, &format!("{ep}/decl{decl}/len{}", if len < 2048 { "<2k" } else if len <= 8192 { "<=8k" } else { ">8k" }), len > 0);
+            }
+        }
+    }
+    // histories on one thread: a message whose writer fails (at its first, second or third write call), then a second message,
+    // through every pair of entry points (seeds C08-i / C10-i kept an undeliverable head in a per-thread buffer)
+    for a in ["E", "B", "R", "Q"] {
+        for b in ["E", "B", "R"] {
+            for fail_at in [0usize, 1, 2] {
+                let acc_a: Vec<String> = (0..fail_at).map(|_| "3".to_string()).chain(std::iter::once("x".to_string())).collect();
+                let body_a = if a == "E" { "-".to_string() } else { hex(b"first message body") };
+                let body_b = if b == "E" { "-".to_string() } else { hex(b"second") };
+                let first = format!("{a} 200 {} n [{}:{}] {} {}", hex(b"OK"), hex(b"x-kind"), hex(b"big"), body_a, acc_a.join(","));
+                let second = format!("{b} 404 {} n [] {} -", hex(b"NOT FOUND"), body_b);
+                let case = format!("{first} ## {second}");
+                let r = run(&case);
+                out.emit(&case, &r, "after-failed-write", true);
             }
         }
     }
